@@ -400,6 +400,16 @@ func (x *Exec) modTarget(st *State, fr *Frame, ex ast.Expr, f func(kind, sort, r
 						return
 					}
 				}
+				// heap(pkg.Type): a type of another package, e.g. heap(bytes.Buffer)
+				if sel, ok := n.Args[0].(*ast.SelectorExpr); ok {
+					if q, isId := sel.X.(*ast.Ident); isId {
+						sort := "T_" + q.Name + "_" + sel.Sel.Name
+						if x.w.DTByName(sort) != nil {
+							f("heap", sort, "", nil)
+							return
+						}
+					}
+				}
 			}
 		}
 	case *ast.Ident:
